@@ -17,11 +17,12 @@ import tempfile
 
 from .. import core, lean, pool
 from . import h5util as H
+from . import mfutil as MU
 
 ID = "C10"
 MOD = "harness.props.c10"
 LEAN = dict(modules=["MetadorModel.Props.C10"],
-            theorems=["MetadorModel.C10." + n for n in ['stub_identity', 'stub_patch_accepted', 'stub_patch_same_block', 'stub_skeleton', 'stub_single',
+            theorems=["MetadorModel.C10." + n for n in ['stub_identity', 'stub_patch_accepted', 'stub_patch_same_block', 'stub_merge_refused', 'stub_skeleton', 'stub_single',
                                                                'stub_sameSkel', 'stub_inv', 'stub_mentions',
                                                                'existence_determined', 'existence_determined_ok',
                                                                'existence_determined_error',
@@ -38,12 +39,13 @@ def _sha(p):
     return "sha256:" + hashlib.sha256(open(p, "rb").read()).hexdigest()
 
 
-def _check_manifest(rec, oracle, where, expect_exts):
+def _check_manifest(rec, oracle, where, expect_exts, idx=-1):
+    """the manifest clauses for the newest COMMITTED container (`idx` = -1, or -2 while a patch is open)"""
     from metador_core.ih5.manifest import IH5UBExtManifest, IH5Manifest
     from metador_core.ih5.skeleton import IH5Skeleton
 
-    last = rec.ih5_files[-1]
-    ub = rec.ih5_meta[-1]
+    last = rec.ih5_files[idx]
+    ub = rec.ih5_meta[idx]
     ext = IH5UBExtManifest.get(ub)
     mfp = str(last) + "mf.json"
     if ext is None:
@@ -54,7 +56,11 @@ def _check_manifest(rec, oracle, where, expect_exts):
         return
     if str(ext.manifest_hashsum) != _sha(mfp):
         oracle.append(dict(kind="manifest-hash-mismatch-after-commit", where=where))
-    mf = IH5Manifest.parse_file(mfp)
+    try:
+        mf = IH5Manifest.parse_file(mfp)
+    except Exception as e:  # noqa: BLE001
+        oracle.append(dict(kind="manifest-file-unreadable-after-commit", where=where, error=type(e).__name__))
+        return
     if mf.manifest_uuid != ext.manifest_uuid:
         oracle.append(dict(kind="manifest-uuid-mismatch-after-commit", where=where))
     # the ub stored on disk must carry the same ext
@@ -62,15 +68,40 @@ def _check_manifest(rec, oracle, where, expect_exts):
     disk_ext = IH5UBExtManifest.get(IH5UserBlock.load(last))
     if disk_ext is None or disk_ext.manifest_uuid != mf.manifest_uuid or str(disk_ext.manifest_hashsum) != _sha(mfp):
         oracle.append(dict(kind="manifest-not-linked-on-disk", where=where))
-    sk_now = json.loads(IH5Skeleton.for_record(rec).json())
     sk_mf = json.loads(mf.skeleton.json())
-    if sk_now != sk_mf:
-        diff = sorted(k for k in set(sk_now) | set(sk_mf) if sk_now.get(k) != sk_mf.get(k))[:4]
-        oracle.append(dict(kind="manifest-skeleton-differs", where=where, paths=diff))
+    if idx == -1:
+        sk_now = json.loads(IH5Skeleton.for_record(rec).json())
+        if sk_now != sk_mf:
+            diff = sorted(k for k in set(sk_now) | set(sk_mf) if sk_now.get(k) != sk_mf.get(k))[:4]
+            oracle.append(dict(kind="manifest-skeleton-differs", where=where, paths=diff))
+        # independently of IH5Skeleton: paths, node kinds and attribute names of what the record shows
+        shown = H.skel(H.dump(rec))
+        listed = {("/" + k.strip("/")) if k != "/" else "/": [v["node_type"], sorted(v["attrs"].keys())] for k, v in sk_mf.items()}
+        if {k: [v[0], v[1]] for k, v in shown.items()} != listed:
+            diff = sorted(k for k in set(shown) | set(listed) if shown.get(k) != listed.get(k))[:4]
+            if not any(d.get("kind") == "manifest-skeleton-differs" and d.get("where") == where for d in oracle):
+                oracle.append(dict(kind="manifest-skeleton-differs", where=where, paths=diff, shown=[shown.get(k) for k in diff], manifest=[listed.get(k) for k in diff]))
     if mf.manifest_exts != expect_exts:
         oracle.append(dict(kind="manifest-exts-not-persisted", where=where, got=mf.manifest_exts, expected=expect_exts))
     if rec.manifest.manifest_uuid != mf.manifest_uuid:
         oracle.append(dict(kind="loaded-manifest-is-not-the-newest", where=where))
+
+
+BAD_COMMITS = ["redundant", "redundant-exts", "readonly", "kwarg-closed", "kwarg-open"]
+
+
+def _refused_commit(rec, how):
+    """a commit attempt that the base class refuses; returns the exception (None = not refused)"""
+    try:
+        if how == "redundant-exts":
+            rec.commit_patch(manifest_exts={"never": 1})
+        elif how in ("kwarg-closed", "kwarg-open"):
+            rec.commit_patch(manifest_ext={"typo": 1})
+        else:
+            rec.commit_patch()
+    except Exception as e:  # noqa: BLE001
+        return e
+    return None
 
 
 def impl(case):
@@ -105,16 +136,51 @@ def impl(case):
                 commit(op[1] if len(op) > 1 else None)
                 rec.create_patch()
                 out.append("ok")
+            elif op[0] == "badcommit":
+                how = op[1]
+                tags.append("refused-commit:" + how)
+                if how == "kwarg-open":
+                    # misspelled keyword while the patch is open: refused, the patch stays open, what
+                    # has been committed before (if anything) keeps its manifest
+                    _refused_commit(rec, how)
+                    if len(rec.ih5_files) > 1:
+                        _check_manifest(rec, oracle, "after refused commit (%s)" % how, exts, idx=-2)
+                    continue
+                commit(None)
+                if how == "readonly":
+                    rec.close()
+                    rec = IH5MFRecord(Path(real_dir) / "rec", "r")
+                _refused_commit(rec, how)
+                # the clauses hold after EVERY commit attempt, also a refused one ...
+                _check_manifest(rec, oracle, "after refused commit (%s)" % how, exts)
+                d_before = H.dump(rec)
+                rec.close()
+                # ... and the record opens again
+                try:
+                    rec = IH5MFRecord(Path(real_dir) / "rec", "r")
+                    if H.dump(rec) != d_before:
+                        oracle.append(dict(kind="record-differs-after-refused-commit", how=how))
+                    _check_manifest(rec, oracle, "reopened after refused commit (%s)" % how, exts)
+                    rec.close()
+                    rec = IH5MFRecord(Path(real_dir) / "rec", "r+")
+                except Exception as e:  # noqa: BLE001
+                    oracle.append(dict(kind="record-does-not-reopen-after-refused-commit", how=how, error="%s: %s" % (type(e).__name__, str(e)[:160])))
+                    return dict(out=out, oracle=oracle, tags=tags, partial=True)
+                out.append("ok")
             elif op[0] == "reopen":
                 # close (committing) and reopen; or leave the patch uncommitted and continue it
                 if op[1] == "commit":
                     commit(None)
                     rec.close()
                     rec = IH5MFRecord(Path(real_dir) / "rec", "r+")
+                    if len(rec.ih5_files) > 1:
+                        _check_manifest(rec, oracle, "reopened after commit %d" % ncommit, exts, idx=-2)
                     out.append("ok")
                 else:
                     rec.close(commit=False)
                     rec = IH5MFRecord(Path(real_dir) / "rec", "r+")
+                    if len(rec.ih5_files) > 1:
+                        _check_manifest(rec, oracle, "reopened with the patch uncommitted", exts, idx=-2)
                     tags.append("reopen-uncommitted")
             else:
                 out.append(H.oc(H.apply_op(rec, op)))
@@ -130,7 +196,19 @@ def impl(case):
         d_real = H.dump(real)
         files = [str(p) for p in real.ih5_files]
         mfpath = files[-1] + "mf.json"
+        _check_manifest(real, oracle, "reopened after the last commit", exts)
+        # a commit on a record opened read-only is refused and changes nothing
+        if case.get("ro_commit"):
+            _refused_commit(real, "readonly")
+            _check_manifest(real, oracle, "after refused commit (readonly, final)", exts)
+            tags.append("refused-commit:readonly")
         real.close()
+        try:
+            real = IH5MFRecord([Path(f) for f in files], "r")
+            real.close()
+        except Exception as e:  # noqa: BLE001
+            oracle.append(dict(kind="record-does-not-reopen-after-refused-commit", how="readonly", error="%s: %s" % (type(e).__name__, str(e)[:160])))
+            return dict(out=out, oracle=oracle, tags=tags, partial=True)
 
         # --- stub
         stub_dir = os.path.join(tmp, "stub")
@@ -202,9 +280,15 @@ def impl(case):
             tags.append("update-deletes")
         out += [H.show_dump(d_real), "wf T", H.show_skel(d_real), "ok", "ok"] + [H.oc(x) for x in out_direct] + [H.show_dump(dump_direct)]
         out += ["ok", "ok", H.show_skel(d_stub), H.show_dump(d_stub), "ok"] + [H.oc(x) for x in out_stub] + ["ok"]
-        if dump_via is not None:
-            out.append(H.show_dump(dump_via))
-        return dict(out=out, oracle=oracle, tags=tags, partial=dump_via is None)
+        if dump_via is None:
+            return dict(out=out, oracle=oracle, tags=tags, partial=True)
+        out.append(H.show_dump(dump_via))
+        # "a stub cannot be merged": neither alone nor with committed patches on top, neither in the
+        # session that made it nor re-opened from disk (by name, by file list, r+)
+        if case.get("stubset"):
+            pairs = MU.stub_set_merges(tmp, mfpath, case["stubset"], oracle, tags, kind="stub-merge-not-refused")
+            out += [w for _, w in pairs]
+        return dict(out=out, oracle=oracle, tags=tags)
     finally:
         shutil.rmtree(tmp, ignore_errors=True)
 
@@ -212,15 +296,20 @@ def impl(case):
 def lines(case):
     L = []
     for op in case["ops"]:
-        if op[0] == "patch" or (op[0] == "reopen" and op[1] == "commit"):
+        if op[0] == "patch" or (op[0] == "reopen" and op[1] == "commit") or (op[0] == "badcommit" and op[1] != "kwarg-open"):
             L.append("patch")
-        elif op[0] == "reopen":
+        elif op[0] in ("reopen", "badcommit"):
             continue
         else:
             L.append(H.op_line(op))
     upd = [H.op_line(op) for op in case.get("update") or []]
     L += ["dump", "wf", "skel", "save", "patch"] + upd + ["dump"]
     L += ["restore", "stub", "skel", "dump", "patch"] + upd + ["graft", "dump"]
+    sp = case.get("stubset")
+    if sp:
+        k = len(sp.get("patches") or [])
+        L += ["guard 1%s 0" % ("0" * a) for a in range(k + 1)]
+        L += ["guard 1%s 0" % ("0" * (k + 1 if how == "name-rw" else k)) for how in sp.get("reopen") or MU.STUB_OPENINGS]
     return L
 
 
@@ -236,13 +325,89 @@ def rand_update(rng, n):
     return [H.rand_op(rng, ["/a", "/b", "/a/b", "/a/a", "/b/c", "/c"], allow_copy=False) for _ in range(n)]
 
 
-def gen_cases(ctx):
+WRITE_KINDS = ["datasets", "groups", "root-attrs", "child-attrs", "exts-only", "empty", "deletes", "mixed"]
+PATHS = ["/a", "/b", "/a/b", "/a/a", "/b/c", "/c"]
+
+
+def patch_ops(rng, kind):
+    """the writes of one patch of a given 'write kind'"""
+    k = rng.randrange(1, 4)
+    if kind == "datasets":
+        return [["set", rng.choice(PATHS), rng.choice(H.VALS)] for _ in range(k)]
+    if kind == "groups":
+        return [["grp", rng.choice(PATHS)] for _ in range(k)]
+    if kind == "root-attrs":
+        return [rng.choice([["sattr", "/", rng.choice(H.ATTRS + ["n"]), rng.choice(H.VALS)], ["sattr", "/", rng.choice(H.ATTRS + ["n"]), rng.choice(H.VALS)],
+                            ["dattr", "/", rng.choice(H.ATTRS)]]) for _ in range(k)]
+    if kind == "child-attrs":
+        return [rng.choice([["sattr", rng.choice(PATHS), rng.choice(H.ATTRS), rng.choice(H.VALS)], ["dattr", rng.choice(PATHS), rng.choice(H.ATTRS)]]) for _ in range(k)]
+    if kind in ("exts-only", "empty"):
+        return []
+    if kind == "deletes":
+        return [["del", rng.choice(PATHS)] for _ in range(k)]
+    return [H.rand_op(rng, PATHS, allow_copy=False) for _ in range(k + 1)]
+
+
+def boundary(rng, kind=None, j=0):
+    """a way of ending a patch: plain commit, commit overriding the extensions, committing close +
+    reopen, or a commit followed by a commit attempt that is refused"""
+    if kind == "exts-only":
+        return ["patch", {"k": j}]
+    r = rng.random()
+    if r < 0.35:
+        return ["patch"]
+    if r < 0.55:
+        return ["patch", {"k": j}]
+    if r < 0.7:
+        return ["reopen", "commit"]
+    return ["badcommit", rng.choice(BAD_COMMITS[:4])]
+
+
+def kinds_case(rng, kinds, bad=None):
+    """base container with some content (root attributes included), then one patch per entry of
+    `kinds`; every patch is ended in a random way (`bad`: by that refused commit)"""
+    ops = [["set", "/a/b", "i:1"], ["sattr", "/", "k", "i:0"], ["sattr", "/a", "m", "i:7"]] + [H.rand_op(rng, PATHS, allow_copy=False) for _ in range(rng.randrange(0, 4))]
+    ops.append(boundary(rng, None, 0) if bad is None else ["badcommit", bad] if bad != "kwarg-open" else ["patch"])
+    for j, kd in enumerate(kinds):
+        w = patch_ops(rng, kd)
+        if bad == "kwarg-open" or rng.random() < 0.1:
+            w.insert(rng.randrange(0, len(w) + 1), ["badcommit", "kwarg-open"])
+        ops += w
+        if j < len(kinds) - 1:
+            ops.append(["badcommit", bad] if bad not in (None, "kwarg-open") and rng.random() < 0.6 else boundary(rng, kd, j + 1))
+    final = {"final": 1} if kinds and kinds[-1] == "exts-only" else rng.choice([None, None, {"final": 1}])
+    return dict(ops=ops, update=rand_update(rng, rng.randrange(1, 5)), final_exts=final, ro_commit=bad == "readonly" or rng.random() < 0.3)
+
+
+def sweep_cases(rng):
+    """systematic part: every write kind as the LAST patch before the final commit and as an inner
+    patch; every kind of refused commit; stubs with 0..3 committed patches"""
+    cases = []
+    for kd in WRITE_KINDS:
+        cases.append(kinds_case(rng, [kd]))
+        cases.append(kinds_case(rng, [rng.choice(WRITE_KINDS), kd, rng.choice(WRITE_KINDS)]))
+    for bad in BAD_COMMITS:
+        cases.append(kinds_case(rng, [rng.choice(WRITE_KINDS) for _ in range(rng.randrange(1, 3))], bad=bad))
+    for k in range(4):
+        c = kinds_case(rng, [rng.choice(WRITE_KINDS)])
+        c["stubset"] = dict(patches=[[H.rand_op(rng, PATHS, allow_copy=False) for _ in range(rng.randrange(0, 3))] for _ in range(k)], reopen=list(MU.STUB_OPENINGS))
+        cases.append(c)
+    return cases
+
+
+def gen_cases(ctx, sweep=True):
     rng = ctx.rng
     n = 30 if ctx.quick else 600
-    cases = []
+    cases = sweep_cases(rng) if sweep else []
     for i in range(n):
         ops = []
-        if rng.random() < 0.3:
+        r0 = rng.random()
+        if r0 < 0.25:
+            cases.append(kinds_case(rng, [rng.choice(WRITE_KINDS) for _ in range(rng.randrange(1, 5))], bad=rng.choice([None, None] + BAD_COMMITS)))
+            if rng.random() < 0.3:
+                cases[-1]["stubset"] = dict(patches=[[H.rand_op(rng, PATHS, allow_copy=False)] for _ in range(rng.randrange(0, 4))], reopen=list(MU.STUB_OPENINGS))
+            continue
+        if r0 < 0.5:
             # manifest-extension chains: several commits, some overriding the extensions, with
             # close/reopen (committed or leaving the patch uncommitted) in between
             for j in range(rng.randrange(2, 6)):
@@ -265,18 +430,26 @@ def gen_cases(ctx):
                     ops.append(["patch", {"k": rng.randrange(3)}])
                 elif r < 0.45:
                     ops.append(["reopen", rng.choice(["commit", "uncommitted"])])
+                elif r < 0.6:
+                    ops.append(["badcommit", rng.choice(BAD_COMMITS)])
                 else:
                     ops.append(["patch"])
             else:
                 ops.append(op)
         cases.append(dict(ops=ops, update=rand_update(rng, rng.randrange(1, 9)),
-                          final_exts=rng.choice([None, None, {"final": 1}])))
+                          final_exts=rng.choice([None, None, {"final": 1}]), ro_commit=rng.random() < 0.3))
+        if rng.random() < 0.25:
+            cases[-1]["stubset"] = dict(patches=[[H.rand_op(rng, PATHS, allow_copy=False)] for _ in range(rng.randrange(0, 4))], reopen=list(MU.STUB_OPENINGS))
     return cases
 
 
 def run(ctx):
-    ctx.rule = ("random histories on a real IH5MFRecord (set/grp/del/sattr/dattr/copy/move, patch boundaries with/without manifest_exts override, close/reopen "
-                "committed or uncommitted); stub from the newest manifest; existence-based update (set/grp/del/sattr/dattr) via stub and directly; "
+    ctx.exhaustive_spaces += ["write kind of a patch (datasets, groups, root attributes only, child attributes only, manifest_exts only, empty, deletes, "
+                              "mixed) as last and as inner patch", "kinds of refused commit (redundant, redundant with exts, read-only handle, unknown keyword with "
+                              "and without an open patch)", "stub + k committed patches, k = 0..3, x 4 ways of re-opening + in-session"]
+    ctx.rule = ("random histories on a real IH5MFRecord (set/grp/del/sattr/dattr/copy/move, patches of every write kind, patch boundaries with/without "
+                "manifest_exts override, close/reopen committed or uncommitted, commit attempts that are refused, each followed by a reopen; manifest clauses "
+                "after every commit attempt); stub from the newest manifest; stub with 0..3 committed patches merged in-session and re-opened; existence-based update (set/grp/del/sattr/dattr) via stub and directly; "
                 "non-trivial = >=3 containers, inherited extensions, reopen with uncommitted patch, effective update, update deletes")
     cases = core.load_corpus(ID) + gen_cases(ctx)
     ctx.correspond("stub-model", MOD, cases, lines, "drv_mrg", compare=compare, timeout=120)
